@@ -4,7 +4,8 @@ import re
 KEYWORDS = ("func", "extern", "interface", "type", "lemma", "requires", "ensures", "modifies", "pure",
             "reads", "inline", "invariant", "loop", "assume", "history", "frame", "effectfree", "ghost",
             "lock", "atomic", "axiom", "nopanic", "acquires", "cancellable", "table", "action", "define",
-            "fresh", "terminates", "opaque", "nonnil", "callsite", "coverage", "returns", "blocking", "noreturn", "after", "guarantee", "rely", "token")
+            "fresh", "terminates", "opaque", "nonnil", "callsite", "coverage", "returns", "blocking", "noreturn", "after", "guarantee", "rely", "token",
+            "invokes", "prompt", "promises", "refines", "locked", "rlocked", "establishes")
 
 TOK = re.compile(r"""
     (?P<ws>\s+)
@@ -306,7 +307,7 @@ def parse_contracts(lines):
                 decls.append(d)
             cur = None
             continue
-        if first in ("func", "extern", "interface", "type", "lemma", "history", "frame", "table", "axiom", "define", "coverage"):
+        if first in ("func", "extern", "interface", "type", "lemma", "history", "frame", "table", "axiom", "define", "coverage", "lockorder"):
             curclause = None
             tags, rest = _split_tags(txt)
             parts = rest.split(None, 1)
@@ -315,7 +316,7 @@ def parse_contracts(lines):
             if kind == "extern":
                 # extern func NAME
                 name = name.split(None, 1)[1].strip() if name.startswith("func") else name
-            if kind in ("lemma", "axiom", "define", "coverage", "frame"):
+            if kind in ("lemma", "axiom", "define", "coverage", "frame", "lockorder"):
                 # lemma [label] : expr   (expression may continue on following lines)
                 m = LABEL.match(name)
                 label = m.group(1) if m else "l%d" % ln["line"]
